@@ -203,26 +203,29 @@ def coq_check(ctx):
     bad = audit_sources(closure)
     if bad:
         ctx.problems.append(Problem("audit", "forbidden construct in the Coq development", {"lines": bad[:20]}))
+    # 1. everything the Props files depend on (their Require closure) and the Extract files, in parallel
     targets = [e[:-2] + ".vo" for e in spec.get("extract", [])]
-    for props in props_list:
-        vo = props[:-2] + ".vo"
-        targets.append(vo)
-        for f in (vo, props[:-2] + ".glob"):
-            try:
-                os.remove(os.path.join(COQ, f))
-            except FileNotFoundError:
-                pass
-    # -j1 at the end so that the Props files are compiled one after another and their output is not interleaved
+    for f in closure:
+        t = f[:-2] + ".vo"
+        if f not in props_list and t not in targets:
+            targets.append(t)
     cmd = "timeout 3000 make -j16 %s" % " ".join(t for t in targets)
     rc, out = sh(cmd, cwd=COQ, timeout=3100)
-    ctx.cov["checker_cmd"] = "cd coq && coq_makefile -f _CoqProject ... -o Makefile && " + cmd + "  (coqc 8.16.1, full .vo build)"
+    ctx.cov["checker_cmd"] = ("cd coq && coq_makefile -f _CoqProject ... -o Makefile && " + cmd +
+                              " && make <each Props/*.vo>   (coqc 8.16.1, full .vo build)")
     expected = spec["theorems"]
+    if expected == "auto":
+        # every theorem that the (digest-pinned) Props files print assumptions for
+        expected = []
+        for props in props_list:
+            expected += re.findall(r"Print Assumptions\s+([\w.']+)\s*\.", strip_coq_comments(open(os.path.join(COQ, props)).read()))
     ctx.cov["obligations"] = len(expected)
     if rc != 0:
         m = re.search(r'File "([^"]+)", line (\d+)', out)
         ctx.problems.append(Problem("proof", "Coq build failed" + (" at %s:%s" % (m.group(1), m.group(2)) if m else ""),
                                     {"log": out[-3000:]}))
         return
+    # 2. each Props file is re-checked unconditionally, alone, so that its Print Assumptions output is unmixed
     by_name = {}
     for props in props_list:
         # re-run the Props file alone to get its Print Assumptions output unmixed
@@ -510,7 +513,7 @@ def finish(ctx):
     cov["trusted_base"] = spec.get("trusted_base", [])
     cov["known_findings_seen"] = sorted(seen_known)
     if not cov["samples"]:
-        cov["samples"] = [{"note": "no generated case (proof obligations only)", "theorems": spec["coq"]["theorems"][:5]}]
+        cov["samples"] = [{"note": "no generated case (proof obligations only)", "theorems": list(cov.get("theorems", {}))[:5]}]
     ev = {
         "property_id": ctx.pid, "tier": ctx.tier, "seed": ctx.seed, "level": spec.get("level", "proof"),
         "coverage": cov, "assumptions": spec.get("assumptions", []),
